@@ -87,10 +87,15 @@ def _c05(V, spec_id, group, base):
             V.check((on in m['keys']) == dict.__contains__(inst, on), 'contract:contains', det)
             for spelling in dcspec.names_of(f):
                 V.check((spelling in inst) == (on in m['keys']), 'contract:contains-alias', lambda: det() + ' %r in inst' % spelling)
+    # reading attributes (deferred defaults are evaluated on access, never stored) leaves the instance as it was
+    kv2 = dict(inst) if isinstance(inst, dict) else None
+    av2 = {k: v for k, v in inst.__dict__.items() if not k.startswith('__')}
+    V.check(kv2 == r[1] and av2 == r[2], 'contract:read-changed-instance',
+            lambda: det() + ' ; after reading every attribute: keys %r attrs %r' % (kv2, av2))
     V.cover('accept')
 
 
-for _spec in dcspec.SPECS:
+for _spec in [x for x in dcspec.SPECS if x != 'aliaserr']:     # (aliaserr serves C06: conflicting spellings under exclude / preserve)
     for _g in GROUPS:
         if not applicable(_spec, _g):
             continue
